@@ -157,17 +157,33 @@ def rule_server(ctx):
                     import string
                     ok = set(alpha) == set(string.ascii_letters + string.digits + "+/")
     ctx.ob("server: Sec-WebSocket-Key characters restricted to the base64 alphabet", ok, "alphabet test over key[:-2] missing or alphabet changed", fn.loc())
-    # protocol list duplicate-free
-    loops = [n for n in g.stmt_nodes() if n.kind == "for" and norm.text(n.ast.iter) == "protocols"]
+    # protocol list duplicate-free: in a loop over the list parsed from the Sec-WebSocket-Protocol header, a value already seen fails the handshake
+    from .common import local_canon, canon_text
+    _canon = local_canon(fn)
+    loops = [n for n in g.stmt_nodes() if n.kind == "for" and "sec-websocket-protocol" in canon_text(fn, n.ast.iter, _canon)]
     ok = False
-    if len(loops) == 1:
-        cv = norm.text(loops[0].ast.target)
+    for lp in loops:
+        cv = norm.text(lp.ast.target)
         for t, pol in _fail_return_edges(g):
             at = norm.atoms(t.ast, pol, res)
-            if any(f[0] == "in" and f[1] == cv and f[3] for f in at):
-                coll = [f[2][1] for f in at if f[0] == "in" and f[1] == cv][0]
-                stores = [n for n in g.stmt_nodes() if n.kind == "stmt" and isinstance(n.ast, ast.Assign) and norm.text(n.ast.targets[0]) == f"{coll}[{cv}]"]
-                ok = bool(stores)
+            for f in at:
+                if f[0] == "in" and f[1] == cv and f[3] and isinstance(f[2], tuple):
+                    coll = f[2][1]
+                    for x in ast.walk(lp.ast):
+                        if isinstance(x, ast.Assign) and norm.text(x.targets[0]) == f"{coll}[{cv}]":
+                            ok = True
+                        if isinstance(x, ast.Call) and isinstance(x.func, ast.Attribute) and x.func.attr in ("add", "append") and norm.text(x.func.value) == coll \
+                                and len(x.args) == 1 and norm.text(x.args[0]) == cv:
+                            ok = True
+    if not ok:
+        # ... or the list is compared with its de-duplicated self: len(set(P)) != len(P)
+        for t, pol in _fail_return_edges(g):
+            for x in ast.walk(t.ast):
+                if isinstance(x, ast.Compare) and len(x.ops) == 1 and isinstance(x.ops[0], (ast.NotEq, ast.Lt, ast.Gt)):
+                    sides = [canon_text(fn, x.left, _canon), canon_text(fn, x.comparators[0], _canon)]
+                    for a_, b_ in (sides, sides[::-1]):
+                        if a_.startswith("len(set(") and b_ == "len(" + a_[len("len(set("):-2] + ")" and "sec-websocket-protocol" in a_:
+                            ok = True
     ctx.ob("server: duplicate subprotocols rejected", ok, "duplicate check over the Sec-WebSocket-Protocol list missing", fn.loc())
     sp = [n for n, v in find_assign_nodes(g, "websocket_protocols")]
     from .common import canon_text
@@ -322,22 +338,75 @@ def rule_digest(ctx):
     except KeyError:
         magic = None
     ctx.ob("_WS_MAGIC is the RFC 6455 GUID", magic == rfc6455.GUID, f"_WS_MAGIC = {magic!r}", wsp.loc())
-    for q, keyexpr in ((f"{WSS}.succeedHandshake", "key.encode('utf8')"), (f"{WSC}.processHandshake", "self.websocket_key")):
-        fn = ctx.program.func(q)
-        ctx.analysed(fn)
-        sha = [s for s in walk_no_defs(fn.node) if isinstance(s, ast.Assign) and norm.text(s.targets[0]) == "sha1"]
-        ctx.ob(f"{q}: digest is SHA-1", len(sha) == 1 and norm.text(sha[0].value) == "hashlib.sha1()", f"sha1 = {[norm.text(s.value) for s in sha]}", fn.loc())
-        upd = [c for c in calls_in(fn.node) if norm.text(c.func) == "sha1.update"]
-        ok = len(upd) == 1 and norm.text(upd[0].args[0]) == f"{keyexpr} + WebSocketProtocol._WS_MAGIC"
-        ctx.ob(f"{q}: digest input is key + GUID", ok, f"update({norm.text(upd[0].args[0]) if upd else None})", fn.loc())
-        acc = [s for s in walk_no_defs(fn.node) if isinstance(s, ast.Assign) and norm.text(s.targets[0]) == "sec_websocket_accept"]
-        okb = len(acc) == 1 and norm.text(acc[0].value) in ("base64.b64encode(sha1.digest())", "base64.b64encode(sha1.digest()).decode()")
-        ctx.ob(f"{q}: accept value is base64 of the digest", okb, f"{[norm.text(s.value) for s in acc]}", fn.loc())
+    # the digest as a term (def-use extraction: locals, temporaries, incremental update() vs one-shot constructor are the same term)
+    from ..core.terms import TermEval, show, subterms
+    from .c19 import canon
+    SELF = ("p", "self")
+    MAGIC = ("g", "WebSocketProtocol._WS_MAGIC")
+
+    def digest_of(key):
+        return ("b64e", ("hash", "sha1", ("op", "+", key, MAGIC)))
+
+    def has_hash(t):
+        return any(isinstance(y, tuple) and y and (y[0] == "hash" or (y[0] == "m" and y[2] in ("digest", "hexdigest"))) for y in subterms(t))
+    # client: the received Sec-WebSocket-Accept is compared with base64(SHA-1(own key + GUID)); inequality fails the handshake
+    fn = ctx.program.func(f"{WSC}.processHandshake")
+    ctx.analysed(fn)
+    te = TermEval(ctx.program, fn, inline=lambda c, f: None).run()
+    want = digest_of(("attr", SELF, "websocket_key"))
+    cmps = []
+    for o in te.outcomes:
+        for c, pol in o.conds:
+            c = canon(c)
+            if c[0] == "cmp" and has_hash(c) and (c, pol, o) not in cmps:
+                cmps.append((c, pol, o))
+                break
+    fails = [(c, pol, o) for c, pol, o in cmps if o.kind == "return" and o.term[0] == "m" and o.term[2] == "failHandshake"]
+    ok = bool(fails)
+    why = "no comparison of the received accept value with a digest guards failHandshake"
+    for c, pol, o in fails[:1]:
+        sides = [c[2], c[3]]
+        mine = [x for x in sides if has_hash(x)]
+        theirs = [x for x in sides if not has_hash(x)]
+        okd = len(mine) == 1 and (mine[0] == want or (mine[0][0] == "dec" and mine[0][1] in ("utf8", "ascii", "latin1") and mine[0][2] == want))
+        ctx.ob(f"{WSC}.processHandshake: expected accept value is base64(SHA-1(own key + GUID))", okd, f"expected value is {show(mine[0])[:160] if mine else None}", fn.loc(o.node))
+        okh = len(theirs) == 1 and any(y == ("c", "sec-websocket-accept") for y in subterms(theirs[0]))
+        ctx.ob(f"{WSC}.processHandshake: it is compared with the received Sec-WebSocket-Accept header", okh, f"compared with {show(theirs[0])[:120] if theirs else None}", fn.loc(o.node))
+        okp = (c[1] == "!=" and pol) or (c[1] == "==" and not pol)
+        ctx.ob(f"{WSC}.processHandshake: any difference fails the handshake", okp, f"failHandshake under `{show(c)[:80]}` being {pol}", fn.loc(o.node))
+    ctx.ob(f"{WSC}.processHandshake: accept digest is verified", ok, why, fn.loc())
+    others = [c for c, pol, o in cmps if (c, pol, o) not in fails and not any(c == f_[0] for f_ in fails)]
+    ctx.ob(f"{WSC}.processHandshake: one digest comparison only", not others, f"{[show(c)[:60] for c in others]}", fn.loc())
+    # server: the response carries "Sec-WebSocket-Accept: " + base64(SHA-1(stored key + GUID))
     fn = ctx.program.func(f"{WSS}.succeedHandshake")
-    keys = [s for s in walk_no_defs(fn.node) if isinstance(s, ast.Assign) and norm.text(s.targets[0]) == "key"]
-    ctx.ob("server: digest key is the key stored by processHandshake", len(keys) == 1 and norm.text(keys[0].value) == "self._wskey", "key source changed", fn.loc())
-    sent = [s for s in walk_no_defs(fn.node) if isinstance(s, ast.AugAssign) and "Sec-WebSocket-Accept" in norm.text(s.value)]
-    ctx.ob("server: response carries the computed digest", len(sent) == 1 and "sec_websocket_accept.decode()" in norm.text(sent[0].value), "accept header value changed", fn.loc())
+    ctx.analysed(fn)
+    te = TermEval(ctx.program, fn, inline=lambda c, f: None).run()
+    want = digest_of(("enc", "utf8", ("attr", SELF, "_wskey")))
+    want2 = digest_of(("enc", "ascii", ("attr", SELF, "_wskey")))
+    found, bad = 0, []
+    pool = [t for _, t, _ in te.effects] + [o.term for o in te.outcomes] + [c for o in te.outcomes for c, _ in o.conds]
+    for t in pool:
+        t = canon(t)
+        for x in subterms(t):
+            if isinstance(x, tuple) and x and x[0] == "cat":
+                parts = x[1:]
+                for i, part in enumerate(parts):
+                    if not has_hash(part) or any(isinstance(y, tuple) and y and y[0] == "cat" and has_hash(y) for y in subterms(part)):
+                        continue  # the digest sits in a nested concatenation, examined on its own
+                    val = part[1] if part[0] == "fmt" else part
+                    good = val[0] == "dec" and val[1] in ("utf8", "ascii", "latin1") and val[2] in (want, want2)
+                    hdr = i > 0 and parts[i - 1][0] == "c" and isinstance(parts[i - 1][1], str) and parts[i - 1][1].endswith("Sec-WebSocket-Accept: ")
+                    if good and hdr:
+                        found += 1
+                    else:
+                        bad.append(show(part)[:140])
+    ctx.ob(f"{WSS}.succeedHandshake: the response carries Sec-WebSocket-Accept: base64(SHA-1(key stored by processHandshake + GUID))", found >= 1 and not bad,
+           f"digest in the response is {bad[:1] or 'not found'}", fn.loc())
+    pfn = ctx.program.func(f"{WSS}.processHandshake")
+    st_ = [x for x in walk_no_defs(pfn.node) if isinstance(x, ast.Assign) and is_self_attr(x.targets[0], "_wskey")]
+    from .common import canon_text
+    ctx.ob("server: the stored key is the validated Sec-WebSocket-Key header value", len(st_) == 1 and "sec-websocket-key" in canon_text(pfn, st_[0].value),
+           f"{[canon_text(pfn, x.value)[:80] for x in st_]}", pfn.loc())
     fn = ctx.program.func(f"{WSC}._actuallyStartHandshake")
     ctx.analysed(fn)
     ks = [s for s in walk_no_defs(fn.node) if isinstance(s, ast.Assign) and is_self_attr(s.targets[0], "websocket_key")]
@@ -452,42 +521,104 @@ def rule_answer_subset(ctx):
 
 
 def rule_request(ctx):
+    """The client's request, as terms: GET <resource> / Host: <host>:<port> come from the request options, whose defaults are the factory's
+    host/port/resource, which are the components parse_url() extracts -- the resource being the URL's raw path (+ '?' + raw query)."""
     ctx.rule("C07.6-client-request-from-url")
+    from ..core.terms import TermEval, show, subterms
+    from .c19 import canon
+    SELF = ("p", "self")
     fn = ctx.program.func(f"{WSC}._actuallyStartHandshake")
     ctx.analysed(fn)
-    first = [s for s in walk_no_defs(fn.node) if isinstance(s, ast.Assign) and norm.text(s.targets[0]) == "request"]
-    ok = len(first) == 1 and isinstance(first[0].value, ast.JoinedStr) and norm.text(first[0].value) == "f'GET {request_options.resource} HTTP/1.1\\r\\n'"
-    ctx.ob("request line is GET <resource> HTTP/1.1", ok, f"{norm.text(first[0].value) if first else None}", fn.loc())
-    host = [s for s in walk_no_defs(fn.node) if isinstance(s, ast.AugAssign) and norm.text(s.value).startswith("f'Host:")]
-    ctx.ob("Host header is host:port of the request options", len(host) == 1 and norm.text(host[0].value) == "f'Host: {request_options.host}:{request_options.port}\\r\\n'", "Host header changed", fn.loc())
+    te = TermEval(ctx.program, fn, inline=lambda c, f: None).run()
+    RO = ("p", fn.params()[1])
+    sent = [canon(t) for _, t, _ in te.effects if t[0] == "m" and t[2] == "sendData" and len(t[3]) == 1]
+    ctx.require(len(sent) == 1, "_actuallyStartHandshake: the request is not handed to sendData exactly once")
+
+    def find_seq(t, pred):
+        for x in subterms(t):
+            if isinstance(x, tuple) and x and x[0] == "cat":
+                parts = x[1:]
+                for i in range(len(parts)):
+                    if pred(parts, i):
+                        return True
+        return False
+
+    def is_c(x, end=None, start=None, eq=None):
+        return x[0] == "c" and isinstance(x[1], str) and (end is None or x[1].endswith(end)) and (start is None or x[1].startswith(start)) and (eq is None or x[1] == eq)
+
+    def is_f(x, attr):
+        return x == ("fmt", ("attr", RO, attr), "") or x == ("attr", RO, attr)
+    ok = find_seq(sent[0], lambda ps, i: i + 2 < len(ps) and is_c(ps[i], eq="GET ") and is_f(ps[i + 1], "resource") and is_c(ps[i + 2], start=" HTTP/1.1\r\n") and i == 0)
+    ctx.ob("request line is GET <resource of the request options> HTTP/1.1", ok, "request line changed", fn.loc())
+    ok = find_seq(sent[0], lambda ps, i: i + 4 < len(ps) and is_c(ps[i], end="Host: ") and (i == 0 or True) and is_f(ps[i + 1], "host") and is_c(ps[i + 2], eq=":")
+                  and is_f(ps[i + 3], "port") and is_c(ps[i + 4], start="\r\n"))
+    ctx.ob("Host header is <host>:<port> of the request options", ok, "Host header changed", fn.loc())
+    ctx.ob("the request is sent UTF-8 encoded as built", sent[0][3][0][0] == "enc", f"sendData({show(sent[0][3][0])[:60]})", fn.loc())
     sh = ctx.program.func(f"{WSC}.startHandshake")
     go = sh.nested().get("got_options")
     ctx.require(go is not None, "startHandshake.got_options not found")
-    cr = [c for c in calls_in(go.node) if call_name(c) == "ConnectingRequest"]
-    ok = len(cr) == 1 and {k.arg: norm.text(k.value) for k in cr[0].keywords if k.arg in ("host", "port", "resource")} == \
-        {"host": "self.factory.host", "port": "self.factory.port", "resource": "self.factory.resource"}
-    ctx.ob("default request options take host/port/resource from the factory", ok, "ConnectingRequest defaults changed", sh.loc())
-    calls = [c for c in calls_in(go.node) if self_call(c, "_actuallyStartHandshake")]
-    ctx.ob("handshake started with those options", len(calls) == 1 and norm.text(calls[0].args[0]) == "request_options", "changed", sh.loc())
+    tg = TermEval(ctx.program, go, inline=lambda c, f: None).run()
+    # (inside the nested function `self` is a free variable: self.x appears as the global-like term ('g', 'self.x'))
+    starts = [t[3][0] for _, t, _ in tg.effects if t[0] == "m" and t[2] == "_actuallyStartHandshake" and len(t[3]) == 1] + \
+             [t[2][0] for _, t, _ in tg.effects if t[0] == "call" and t[1] == ("g", "self._actuallyStartHandshake") and len(t[2]) == 1]
+    GP = ("p", go.params()[0])
+    FAC = ("attr", SELF, "factory")
+    ok = False
+    if len(starts) == 1:
+        a_ = starts[0]
+        if a_[0] == "phi" and a_[3] == GP and a_[2][0] == "call":
+            kw = {k_: v_ for _, k_, v_ in a_[2][3]}
+            ok = all(kw.get(k_) in (("attr", FAC, k_), ("g", f"self.factory.{k_}")) for k_ in ("host", "port", "resource")) and \
+                a_[1] in (("cmp", "is", GP, ("c", None)), ("cmp", "==", GP, ("c", None)))
+    ctx.ob("the handshake is started with the options onConnecting returned, or by default with the factory's host/port/resource", ok,
+           f"started with {show(starts[0])[:160] if starts else None}", sh.loc())
     ssp = ctx.program.func("autobahn.websocket.protocol.WebSocketClientFactory.setSessionParameters")
     ctx.analysed(ssp)
-    up = [s for s in walk_no_defs(ssp.node) if isinstance(s, ast.Assign) and isinstance(s.targets[0], ast.Tuple) and isinstance(s.value, ast.Call) and call_name(s.value) == "parse_url"]
-    ok = False
-    if len(up) == 1:
-        names = [norm.text(t) for t in up[0].targets[0].elts]
-        wants = {"host": None, "port": None, "resource": None}
-        st = {norm.text(s.targets[0]): norm.text(s.value) for s in walk_no_defs(ssp.node) if isinstance(s, ast.Assign) and is_self_attr(s.targets[0])}
-        ok = all(st.get(f"self.{k}") == k and k in names for k in wants)
-    ctx.ob("factory host/port/resource are parse_url(url) components", ok, "setSessionParameters no longer stores the parsed URL components", ssp.loc())
+    ts = TermEval(ctx.program, ssp, inline=lambda c, f: None).run()
     pu = ctx.program.func("autobahn.websocket.util.parse_url")
     ctx.analysed(pu)
-    rets = [s for s in walk_no_defs(pu.node) if isinstance(s, ast.Return) and isinstance(s.value, ast.Tuple)]
-    ctx.ob("parse_url returns (isSecure, host, port, resource, path, params)",
-           bool(rets) and all(len(r.value.elts) == 6 and norm.text(r.value.elts[1]) == "parsed.hostname" and norm.text(r.value.elts[3]) == "resource"
-                              and "port" in norm.text(r.value.elts[2]) or "uds" in norm.text(r.value.elts[2]) for r in rets),
-           "return tuple changed", pu.loc())
-    if up:
-        ctx.ob("factory unpacks parse_url in the same order", [norm.text(t).replace("self.", "") for t in up[0].targets[0].elts][:4] == ["isSecure", "host", "port", "resource"], "unpack order changed", ssp.loc())
+    tp = TermEval(ctx.program, pu, inline=lambda c, f: None).run()
+    rets = [canon(o.term) for o in tp.outcomes if o.kind == "return"]
+    ctx.require(rets and all(r[0] == "list" and len(r) == 7 for r in rets), "parse_url no longer returns 6-tuples")
+    pos = {}
+    for k_ in ("host", "port", "resource"):
+        v = ts.env.get(f"self.{k_}")
+        okv = v is not None and v[0] == "idx" and v[1][0] == "call" and v[1][1][0] == "g" and v[1][1][1].endswith("parse_url") and v[2][0] == "c"
+        pos[k_] = v[2][1] if okv else None
+    ctx.ob("factory host/port/resource are components of parse_url(url)", all(pos[k_] is not None for k_ in pos) and len(set(pos.values())) == 3, f"{pos}", ssp.loc())
+    parsed = None
+    for r in rets:
+        for x in subterms(r):
+            if x[0] == "call" and x[1][0] == "g" and x[1][1].endswith("urlparse"):
+                parsed = x
+    ctx.require(parsed is not None, "parse_url: urlparse call not found")
+
+    def attr(n):
+        return ("attr", parsed, n)
+    if pos["host"] is not None:
+        ctx.ob("parse_url: the host component is the URL's hostname", all(r[1 + pos["host"]] == attr("hostname") for r in rets), "host component changed", pu.loc())
+    if pos["port"] is not None:
+        okp = all(any(x == attr("port") for x in subterms(r[1 + pos["port"]])) or parsed[0] and any(x == attr("netloc") for x in subterms(r[1 + pos["port"]])) for r in rets)
+        ctx.ob("parse_url: the port component is the URL's port (80/443 by scheme when absent)", okp, "port component changed", pu.loc())
+    if pos["resource"] is not None:
+        probs = []
+        for r in rets:
+            res_t = r[1 + pos["resource"]]
+            leaves = {x for x in subterms(res_t) if x[0] == "attr" and x[1] == parsed}
+            calls = [x for x in subterms(res_t) if x[0] in ("call", "m")and x != parsed]
+            consts = {x[1] for x in subterms(res_t) if x[0] == "c"} - {None, "", "/", "?"}
+            if calls:
+                probs.append(f"resource passes through {show(calls[0])[:70]}")
+            if leaves != {attr("path"), attr("query")}:
+                probs.append(f"resource built from {sorted(show(x) for x in leaves)}")
+            if consts:
+                probs.append(f"resource contains the literal(s) {sorted(map(str, consts))}")
+            # path first, then '?', then query
+            okq = any(x[0] == "cat" and len(x) == 4 and x[2] == ("c", "?") and any(y == attr("path") for y in subterms(x[1])) and any(y == attr("query") for y in subterms(x[3]))
+                      for x in subterms(res_t))
+            if not okq:
+                probs.append("resource is not <path>?<query>")
+        ctx.ob("parse_url: the resource is the URL's path and query as written (not decoded, not re-encoded), '/' for an empty path", not probs, "; ".join(sorted(set(probs))[:2]), pu.loc())
 
 
 def rule_escape(ctx):
